@@ -358,7 +358,7 @@ func c14Shard(tier string, shard, n int) *CustomResult {
 	budget := 160 * time.Second
 	if tier == "thorough" {
 		bound = 2
-		budget = 25 * time.Minute
+		budget = 12 * time.Minute
 	}
 	only := os.Getenv("C14_ONLY")
 	scs := c14Scenarios()
